@@ -598,7 +598,27 @@ func (c *Ctx) c16Typestate() {
 			return false
 		}
 		n := calleeFull(&cl.Call)
-		return strings.HasSuffix(n, "sharedcache.TransferFiles") || strings.HasSuffix(n, ".unpackPackageToLocalDestination")
+		if strings.HasSuffix(n, "sharedcache.TransferFiles") || strings.HasSuffix(n, ".unpackPackageToLocalDestination") {
+			return true
+		}
+		// a mutating filesystem call on a path inside the shared entry (the clean-up of a failed transfer removes the entry's
+		// package: done after the lock was given up, it removes the package the next holder has just stored)
+		if nm, args, isFs := fsMethodCall(cl); isFs && len(args) > 0 {
+			switch nm {
+			case "Rm", "Remove", "RemoveWithContext", "Move", "MoveWithContext", "WriteFile", "Touch", "CleanDir", "CleanDirWithContext":
+				inEntry := false
+				sources(args[0], deriveOpts{through: func(sn string) bool {
+					for _, suffix := range []string{"sharedcache.TransferFiles", ".createEntry", ".getCacheEntryPath", "sharedcache.getCachedPackagePath", ".findCachedPackageFromEntryDir"} {
+						if strings.HasSuffix(sn, suffix) {
+							inEntry = true
+						}
+					}
+					return true
+				}})
+				return inEntry
+			}
+		}
+		return false
 	}
 	clients := 0
 	for _, sp := range c.SSAPkgs {
@@ -655,8 +675,12 @@ func (c *Ctx) c16Typestate() {
 				}
 				for in, ok := range prot {
 					cl := in.(*ssa.Call)
-					c.check(ok, "Y2", fname(f)+"/"+short(calleeFull(&cl.Call)), c.ipos(in), "runs only while the entry lock is held",
-						"transfer of the shared package can run while the entry lock is not held: concurrent Store/Fetch see partial files")
+					what := short(calleeFull(&cl.Call))
+					if nm, _, isFs := fsMethodCall(cl); isFs {
+						what = "entry:" + nm
+					}
+					c.check(ok, "Y2", fname(f)+"/"+what, c.ipos(in), "runs only while the entry lock is held",
+						"the shared package of the entry is transferred, or changed, while the entry lock is not held: concurrent Store/Fetch see partial files, and a clean-up made after the lock was given up removes the package the next holder has just stored — every later Fetch fails although that Store reported success")
 				}
 			}
 			if isMutable && (f.Name() == "Fetch" || f.Name() == "Store") {
